@@ -238,7 +238,58 @@ fn anchored_ranges(l: u64) -> BoxedStrategy<(String, bool)> {
         .boxed()
 }
 
+/// Entities of (nearly) 2^64-1 bytes with one range covering almost everything plus small ones:
+/// the region where the exact multipart length does or does not fit into u64 (413 territory),
+/// depending on the size of the entity's own headers.
+fn near_overflow_strategy() -> BoxedStrategy<Case> {
+    (
+        proptest::sample::select(&[u64::MAX, u64::MAX - 1, u64::MAX - 100, u64::MAX - 1000][..]),
+        1usize..=3,
+        0u64..400,
+        reqgen::entity_headers_strategy(),
+        reqgen::plan_strategy(),
+        any::<bool>(),
+        0u8..3,
+    )
+        .prop_map(|(l, small, slack, headers, plan, big_first, form)| {
+            // the big range: as long as the 80-bytes-per-part estimate allows, minus a slack
+            let n = small as u64 + 1;
+            let big_len = l.saturating_sub(80 * n + small as u64 + 1).saturating_sub(slack);
+            let big = match form {
+                0 => format!("0-{}", big_len - 1),
+                1 => format!("{}-", l - big_len),
+                _ => format!("-{}", big_len),
+            };
+            let mut specs: Vec<String> = (0..small as u64).map(|i| format!("{}-{}", i * 7, i * 7)).collect();
+            if big_first {
+                specs.insert(0, big);
+            } else {
+                specs.push(big);
+            }
+            Case {
+                ent: EntitySpec {
+                    len: l,
+                    etag: None,
+                    mtime: Mtime::None,
+                    headers,
+                    plan,
+                    faults: vec![],
+                    tail: vec![],
+                    segments: 0,
+                    counting_hint: false,
+                    unfused_errors: false,
+                },
+                req: ReqSpec::get().with("range", format!("bytes={}", specs.join(","))),
+            }
+        })
+        .boxed()
+}
+
 pub fn case_strategy() -> BoxedStrategy<Case> {
+    prop_oneof![15 => main_strategy(), 1 => near_overflow_strategy()].boxed()
+}
+
+fn main_strategy() -> BoxedStrategy<Case> {
     (c06_lens(), reqgen::entity_headers_strategy(), reqgen::plan_strategy(), proptest::sample::select(reqgen::OPAQUES), 0u8..4, reqgen::mtime_strategy())
         .prop_flat_map(|(l, headers, plan, opaque, if_range_mode, mtime)| {
             (anchored_ranges(l), Just((l, headers, plan, opaque, if_range_mode, mtime)))
@@ -259,6 +310,8 @@ pub fn case_strategy() -> BoxedStrategy<Case> {
                     faults: vec![],
                     tail: vec![],
                     segments: 0,
+                    counting_hint: false,
+                    unfused_errors: false,
                 },
                 req,
             }
